@@ -5,6 +5,16 @@ open Decimal
 
 module N :
  sig
+  val succ_double : coq_N -> coq_N
+
+  val double : coq_N -> coq_N
+
+  val add : coq_N -> coq_N -> coq_N
+
+  val sub : coq_N -> coq_N -> coq_N
+
+  val mul : coq_N -> coq_N -> coq_N
+
   val compare : coq_N -> coq_N -> comparison
 
   val eqb : coq_N -> coq_N -> bool
@@ -12,6 +22,16 @@ module N :
   val leb : coq_N -> coq_N -> bool
 
   val ltb : coq_N -> coq_N -> bool
+
+  val size_nat : coq_N -> nat
+
+  val pos_div_eucl : positive -> coq_N -> coq_N * coq_N
+
+  val div_eucl : coq_N -> coq_N -> coq_N * coq_N
+
+  val div : coq_N -> coq_N -> coq_N
+
+  val modulo : coq_N -> coq_N -> coq_N
 
   val to_nat : coq_N -> nat
 
